@@ -37,11 +37,16 @@ Inc(ns, f) == [ns |-> ns, file |-> f, flatten |-> FALSE, internal |-> FALSE, mis
 \* tag: every include statement passes its own value for the include variable IV
 Variants(i, tag) ==
   {i, [i EXCEPT !.flatten = TRUE], [i EXCEPT !.internal = TRUE], [i EXCEPT !.missing = "optional"],
-   [i EXCEPT !.missing = "required"], [i EXCEPT !.alias = "z"], [i EXCEPT !.exclude = "t1"],
+   [i EXCEPT !.missing = "required"], [i EXCEPT !.missing = "present-optional"], [i EXCEPT !.alias = "z"], [i EXCEPT !.exclude = "t1"],
    [i EXCEPT !.dir = "sub"], [i EXCEPT !.iv = tag \o i.ns]}
 Variants2(i, tag) == UNION {Variants(j, tag) : j \in Variants(i, tag)}
 NonDefault(i) == Cardinality({k \in {"flatten", "internal", "missing", "alias", "exclude", "dir", "iv"} :
                                  i[k] # Inc(i.ns, i.file)[k]})
+
+\* missing: "no" the file exists; "optional" / "required" it does not (with / without optional: true);
+\* "present-optional" it exists and the statement says optional: true - which only forgives the absence of that
+\* very file, never an error further down
+Present(inc) == inc.missing \in {"no", "present-optional"}
 
 \* trees: what root, A, B and C include
 RootIncs == {<<>>} \cup {<<i>> : i \in Variants2(Inc("x", "A"), "r") \cup Variants2(Inc("x", "B"), "r") \cup Variants2(Inc("x", "C"), "r")}
@@ -59,10 +64,10 @@ Options(t) == CountSeq(t.R) + CountSeq(t.A) + CountSeq(t.B) + CountSeq(t.C) + (I
 \* ---- which files are reachable, cycles
 RECURSIVE Reach(_, _, _)
 Reach(t, f, fuel) == IF fuel = 0 THEN {f}
-                     ELSE {f} \cup UNION {Reach(t, t[f][k].file, fuel - 1) : k \in {k \in 1..Len(t[f]) : t[f][k].missing = "no"}}
+                     ELSE {f} \cup UNION {Reach(t, t[f][k].file, fuel - 1) : k \in {k \in 1..Len(t[f]) : Present(t[f][k])}}
 RECURSIVE OnCycle(_, _, _, _)
 OnCycle(t, start, f, fuel) ==
-  fuel > 0 /\ \E k \in 1..Len(t[f]) : t[f][k].missing = "no" /\ (t[f][k].file = start \/ OnCycle(t, start, t[f][k].file, fuel - 1))
+  fuel > 0 /\ \E k \in 1..Len(t[f]) : Present(t[f][k]) /\ (t[f][k].file = start \/ OnCycle(t, start, t[f][k].file, fuel - 1))
 HasCycle(t) == \E f \in Reach(t, "R", 4) : OnCycle(t, f, f, 4)
 MissingRequired(t) == \E f \in Reach(t, "R", 4) : \E k \in 1..Len(t[f]) : t[f][k].missing = "required"
 
@@ -104,7 +109,7 @@ Exp(t, f, fuel) ==
                                         dir |-> <<>>, iv |-> "", deps |-> <<>>, calls |-> <<>>] >>
                     ELSE Own(f)
            sub(k) == LET inc == t[f][k] IN
-                     IF inc.missing # "no" THEN <<>>
+                     IF ~Present(inc) THEN <<>>
                      ELSE LET es == SelectSeq(Exp(t, inc.file, fuel - 1), LAMBDA e : inc.exclude = "" \/ Join(e.name) # inc.exclude)
                               parentHasNs == \E j \in 1..Len(own) : own[j].name = <<inc.ns>>
                           IN [j \in 1..Len(es) |-> LiftEntry(f, inc, es[j], parentHasNs)]
@@ -136,6 +141,10 @@ Init == /\ \/ \E r \in Within(RootIncs), a \in Within(AIncs), b \in Within(BIncs
            \/ \E r \in {x \in RootIncs : PairOnOne(x)} :
                 /\ MaxOptions < 2
                 /\ tree = [R |-> r, A |-> <<>>, B |-> <<>>, C |-> <<>>, D |-> <<>>, clash |-> FALSE]
+           \* an optional include whose file exists, with an error further down (a missing required file, a cycle)
+           \/ \E a \in {<<[Inc("n", "C") EXCEPT !.missing = "required"]>>, <<Inc("n", "C")>>}, c \in {<<>>, <<Inc("m", "A")>>, <<[Inc("d", "D") EXCEPT !.missing = "required"]>>} :
+                /\ MaxOptions < 2
+                /\ tree = [R |-> <<[Inc("x", "A") EXCEPT !.missing = "present-optional"]>>, A |-> a, B |-> <<>>, C |-> c, D |-> <<>>, clash |-> FALSE]
            \* the diamond whose two sides pass different include variables to the shared file, which includes a leaf
            \/ \E c \in {<<Inc("d", "D")>>, <<[Inc("d", "D") EXCEPT !.iv = "cd"]>>, <<>>} :
                 /\ MaxOptions < 2
